@@ -558,6 +558,15 @@ fn plan_note(db: &TestDb, rep: &mut Reporter) {
         }
     }
     let _ = db.exec("DROP TABLE pl");
+    // does the planner use an HNSW index for these queries? (recorded, not judged)
+    let _ = db.exec("CREATE TABLE plh (id BIGINT PRIMARY KEY, v VECTOR(3))");
+    let _ = db.exec("CREATE INDEX ix_plh ON plh USING HNSW (v)");
+    let _ = db.exec("INSERT INTO plh VALUES (1, '[1,0,0]')");
+    if let Some(p) = checks::sqlh::explain(db.db(), "SELECT id, v FROM plh ORDER BY v <-> '[1,0,0]' LIMIT 1") {
+        let uses = p.to_lowercase().contains("hnsw");
+        rep.count(if uses { "plan_with_hnsw_index_uses_hnsw" } else { "plan_with_hnsw_index_is_topk_over_scan" }, 1);
+    }
+    let _ = db.exec("DROP TABLE plh");
 }
 
 impl Check for C24 {
